@@ -908,15 +908,15 @@ Proof. destruct o; reflexivity. Qed.
 Lemma wop_entry_op o n : ik_op (fst (wop_entry o n)) <= 1.
 Proof. destruct o; cbn; unfold OP_PUT, OP_DELETE; lia. Qed.
 
-Lemma step_write_nil d m s : lsm_wf_b s = true -> lsm_step d m s (SWrite []) = s.
+Lemma step_write_nil d d14 m s : lsm_wf_b s = true -> lsm_step d d14 m s (SWrite []) = s.
 Proof.
   intros W. apply lsm_wf_b_iff in W. destruct W as (P & _). unfold lsm_step. rewrite P.
   destruct s; cbn [Lsm.l_panic] in P; subst; reflexivity.
 Qed.
 
-Lemma step_write_cons d m s o r :
+Lemma step_write_cons d d14 m s o r :
   l_panic s = false ->
-  lsm_step d m s (SWrite (o :: r)) = lsm_step d m (write1 s o) (SWrite r).
+  lsm_step d d14 m s (SWrite (o :: r)) = lsm_step d d14 m (write1 s o) (SWrite r).
 Proof.
   intros P. unfold lsm_step. change (l_panic (write1 s o)) with (l_panic s). rewrite P.
   destruct o; reflexivity.
@@ -1007,7 +1007,7 @@ Proof.
     change (l_seq (write1 s o)) with (l_seq s + 1). lia.
 Qed.
 
-Theorem write_wf d m b : forall s, lsm_wf_b s = true -> lsm_wf_b (lsm_step d m s (SWrite b)) = true.
+Theorem write_wf d d14 m b : forall s, lsm_wf_b s = true -> lsm_wf_b (lsm_step d d14 m s (SWrite b)) = true.
 Proof.
   induction b as [|o r IH]; intros s W.
   - rewrite step_write_nil by exact W. exact W.
@@ -1309,11 +1309,11 @@ Proof.
   - apply all_entries_write1.
 Qed.
 
-Theorem write_then_get_gen d m b : forall s mp,
+Theorem write_then_get_gen d d14 m b : forall s mp,
   lsm_wf_b s = true ->
   map_sorted mp ->
   (forall k, map_get k mp = visible (all_entries s) (l_seq s) k) ->
-  forall k, db_get (lsm_step d m s (SWrite b)) k = map_get k (map_apply mp b).
+  forall k, db_get (lsm_step d d14 m s (SWrite b)) k = map_get k (map_apply mp b).
 Proof.
   induction b as [|o r IH]; intros s mp W Sm Hm k.
   - rewrite step_write_nil by exact W. unfold db_get. rewrite db_get_correct by exact W.
@@ -1328,9 +1328,9 @@ Proof.
       * rewrite map_get_del by exact Sm. rewrite Hm. reflexivity.
 Qed.
 
-Theorem C01_write_then_get_proof d m s b :
+Theorem C01_write_then_get_proof d d14 m s b :
   lsm_wf_b s = true ->
-  forall k, db_get (lsm_step d m s (SWrite b)) k
+  forall k, db_get (lsm_step d d14 m s (SWrite b)) k
             = map_get k (map_apply (contents (all_entries s) (l_seq s)) b).
 Proof.
   intros W. destruct (contents_spec (all_entries s) (l_seq s)) as [S G].
